@@ -30,6 +30,9 @@ TRUSTED = [
     "harness/ref/pairverify_client.py (independent controller, frame codec, HTTP reader), harness/ref/tlv8.py, generators",
     "removal through AccessoryDriver.unpair()/State.remove_paired_client() called by the application is outside the "
     "property (no acknowledgement exists) and not modelled",
+    "sessions that are in the middle of a request at the moment of the removal (headers only / half a body / a pending delayed "
+    "snapshot response) are produced by the generator and judged by the oracle only: the Sessions model has no per-connection "
+    "request state (its teardown closes a connection whatever it is doing; a completed partial request is compared as one request)",
 ]
 
 CT = c02.CT
@@ -64,6 +67,56 @@ class World16(c02.World):
         self.aid = acc.aid
         self.iid = acc.iid_manager.get_iid(self.char)
         self.log: List[tuple] = []
+        self.snap_futs: List[Any] = []
+
+        async def async_get_snapshot(_data):
+            fut = self.loop.create_future()
+            self.snap_futs.append(fut)
+            return await fut
+
+        acc.async_get_snapshot = async_get_snapshot  # a camera whose snapshot takes as long as the harness wants
+
+    def tick(self, n: int = 3):
+        import asyncio as _a
+
+        for _ in range(n):
+            self.loop.run_until_complete(_a.sleep(0))
+
+    def close(self):
+        for f in self.snap_futs:
+            if not f.done():
+                f.cancel()
+        try:
+            self.tick()
+        except Exception:  # noqa: BLE001
+            pass
+        super().close()
+
+    def send_raw(self, c: int, plain: bytes):
+        """Bytes of a request (possibly incomplete) the way the controller's transport carries them."""
+        p, t, r = self.protos[c], self.transports[c], self.rconn[c]
+        wire = r.session.seal(plain) if r.session else plain
+        try:
+            p.data_received(wire)
+        except Exception as ex:  # noqa: BLE001
+            return type(ex).__name__
+        return None
+
+    def read_written(self, c: int):
+        """Parse whatever was written on connection c since the last read: [(message|None, dropped)]."""
+        t, r = self.transports[c], self.rconn[c]
+        res = []
+        for buf, dropped in ((bytes(t.out), False), (bytes(t.dropped), True)):
+            if r.session and buf:
+                buf, ok = r.session.feed(buf)
+                if not ok:
+                    res.append((None, dropped))
+                    continue
+            msgs, _ = rc.parse_http_responses(buf)
+            res += [(m, dropped) for m in msgs]
+        t.out.clear()
+        t.dropped.clear()
+        return res
 
     def connect(self, c: int) -> bool:
         """connection_made for peer c; False if that peer already has a registered connection."""
@@ -173,6 +226,7 @@ class Runner16(c02.Runner):
         self.outcomes: List[str] = []
         self.clock = 0  # mirrors the model's step counter (names of the accessory's ephemeral key pairs)
         self.acked_removals = 0
+        self.busy: Dict[int, Dict[str, Any]] = {}  # connections with a request in flight (judged by the oracle only)
 
     # ---- helpers
     def uuid_of(self, i: int) -> uuidlib.UUID:
@@ -293,10 +347,74 @@ class Runner16(c02.Runner):
             self.outcomes.append(f"{req['r']}-{_cl(cls)}" + ("-dropped" if dropped else ""))
         return classes
 
+    # ---- sessions that are in the middle of a request
+    def op_partial(self, n, op):
+        """Start a PUT /characteristics on connection c but stop after the headers / half of the body."""
+        c = op["conn"]
+        w = self.w
+        if c not in w.protos or w.transports[c].closed or c in self.busy:
+            return
+        full = w.prot_request(2)
+        head_end = full.index(b"\r\n\r\n") + 4
+        cut = head_end if op.get("kind") == "headers" else head_end + (len(full) - head_end) // 2
+        w.transports[c].out.clear()
+        w.send_raw(c, full[:cut])
+        self.busy[c] = {"what": "partial", "rest": full[cut:]}
+        self.outcomes.append("partial-" + op.get("kind", "halfbody"))
+
+    def op_snapshot(self, n, op):
+        """POST /resource whose snapshot is still being taken (delayed response pending)."""
+        c = op["conn"]
+        w = self.w
+        if c not in w.protos or w.transports[c].closed or c in self.busy:
+            return
+        if w.rconn[c].verified_as is None:
+            return
+        body = json.dumps({"image-width": 320, "image-height": 240, "resource-type": "image"}).encode()
+        before = len(w.snap_futs)
+        w.transports[c].out.clear()
+        w.send_raw(c, rc.http_request("POST", "/resource", body, JS))
+        w.tick()
+        if len(w.snap_futs) == before + 1 and not w.read_written(c):
+            self.busy[c] = {"what": "snapshot", "fut": w.snap_futs[-1]}
+            self.outcomes.append("snapshot-pending")
+        else:
+            self.outcomes.append("snapshot-not-started")
+
+    def op_finish(self, n, op):
+        """The in-flight request of connection c completes: the rest of the body arrives / the snapshot is ready."""
+        c = op["conn"]
+        w = self.w
+        b = self.busy.pop(c, None)
+        if b is None:
+            return
+        t, r = w.transports[c], w.rconn[c]
+        owner = r.verified_as
+        start = len(w.log)
+        if b["what"] == "partial":
+            # exactly like a normal chunk carrying this one request (model: one guarded request, if deliverable)
+            self.deliver(c, [{"r": "prot", "kind": 2}], [b["rest"]], [{"r": "prot", "kind": 2}])
+            return
+        if not b["fut"].done():
+            b["fut"].set_result(b"\xff\xd8JPEG")
+        w.tick()
+        wrote = [(kind, cc) for kind, cc in w.log[start:] if cc == c and kind in ("w", "d")]
+        msgs = w.read_written(c)
+        served = any(m is not None and 200 <= m["status"] < 300 for m, _ in msgs) or (wrote and not msgs)
+        if owner is not None and not self.currently_paired(owner) and wrote:
+            self.fail(
+                "C16:delayed-response-written-after-removal",
+                f"the delayed snapshot response on connection {c} of controller {_ix(owner)} was written after the removal of its "
+                f"pairing had been acknowledged",
+            )
+        self.outcomes.append("snapshot-" + ("delivered" if served and not t.closed else ("written-after-close" if wrote else "suppressed")))
+
     def op_req(self, n, op):
         c = op["conn"]
         if c not in self.w.protos:
             return
+        if c in self.busy and not self.w.transports[c].closed:
+            return  # a controller does not pipeline behind its own unfinished request here
         raws, mreqs = [], []
         for req in op["reqs"]:
             if req["r"] == "prot":
@@ -326,7 +444,7 @@ class Runner16(c02.Runner):
         """Establish (or try to establish) a session for controller `id` on connection `conn`."""
         c, i = op["conn"], op["id"]
         w = self.w
-        if c not in w.protos or w.transports[c].closed:
+        if c not in w.protos or w.transports[c].closed or c in self.busy:
             return
         r = w.rconn[c]
         u = self.uuid_of(i)
@@ -446,6 +564,22 @@ def add(i, admin=False, key=None):
 LIST = {"r": "list"}
 
 
+def PART(c, kind="halfbody"):
+    return {"op": "partial", "conn": c, "kind": kind}
+
+
+def SNAP(c):
+    return {"op": "snapshot", "conn": c}
+
+
+def FIN(c):
+    return {"op": "finish", "conn": c}
+
+
+def midreq(c, how):
+    return SNAP(c) if how == "snapshot" else PART(c, how)
+
+
 def probes(c):
     return [RQ(c, prot(0)), RQ(c, prot(1)), RQ(c, prot(2)), RQ(c, prot(3)), RQ(c, prot(4)), RQ(c, LIST)]
 
@@ -481,6 +615,24 @@ def boundary_scripts():
     # last-admin sweep, somebody pairs again, the swept controllers (who verified before) come back with their old keys
     s.append([P(0), P(1, admin=False), P(2, admin=False), CN(0), CN(1), CN(2), S(0, 0), S(1, 1), S(2, 2), RQ(0, rem(0)),
               P(3), CN(3), S(3, 1), RQ(3, prot(0)), CN(4), S(4, 2), RQ(4, prot(0)), CN(5), S(5, 0), CN(6), S(6, 3), RQ(6, prot(0))])
+    # ---- sessions that are in the middle of a request when the removal happens, in different registry positions
+    for how in ("snapshot", "headers", "halfbody"):
+        for real in ("verify", "force"):
+            # another admin removes B: B's first session is mid-request, B's later session and A's are idle
+            s.append([P(0), P(1, admin=False), CN(0), CN(1), CN(2), CN(3), S(0, 0, real), S(1, 1, real), S(2, 1, "force"), S(3, 1, real),
+                      midreq(1, how), RQ(0, rem(1)), FIN(1), *probes(2), *probes(3), RQ(1, prot(0)), RQ(0, prot(0))])
+        # the admin's connection registered last; mid-request session in the middle of B's three
+        s.append([P(0), P(1, admin=False), CN(1), CN(2), CN(3), CN(0), S(1, 1, "force"), S(2, 1), S(3, 1, "force"), S(0, 0),
+                  midreq(2, how), RQ(0, rem(1)), *probes(3), *probes(1), FIN(2), RQ(2, prot(0))])
+        # self-removal (another admin stays): A's other session is mid-request, a later one idle
+        s.append([P(0), P(1), CN(0), CN(1), CN(2), CN(3), S(0, 0), S(1, 0, "force"), S(2, 0), S(3, 1),
+                  midreq(1, how), RQ(0, rem(0), prot(0)), FIN(1), *probes(2), *probes(1), RQ(3, prot(0)), RQ(3, LIST)])
+        # last-admin rule: B mid-request, C and a second session of B idle behind it
+        s.append([P(0), P(1, admin=False), P(2, admin=False), CN(0), CN(1), CN(2), CN(3), CN(4), S(0, 0), S(1, 1), S(2, 2, "force"), S(3, 1, "force"), S(4, 2),
+                  midreq(1, how), midreq(4, "headers"), RQ(0, rem(0)), *probes(2), *probes(3), FIN(1), FIN(4), *probes(4), *probes(0)])
+        # a mid-request session of a controller that STAYS paired is left alone and completes normally
+        s.append([P(0), P(1, admin=False), P(2, admin=False), CN(0), CN(1), CN(2), S(0, 0), S(1, 1), S(2, 2),
+                  midreq(2, how), RQ(0, rem(1)), *probes(1), FIN(2), RQ(2, prot(0))])
     # removal of one of three, twice in a row (second is a no-op)
     s.append([P(0), P(1, admin=False), P(2, admin=False), CN(0), CN(1), CN(2), S(0, 0), S(1, 1), S(2, 2),
               RQ(0, rem(1), rem(1)), *probes(1), RQ(2, prot(0)), RQ(0, rem(2)), *probes(2), RQ(0, prot(0))])
@@ -539,8 +691,18 @@ def random_script(rng):
             reqs.append(rng.choice([prot(rng.randrange(5)), LIST]))
         if rng.random() < 0.15:
             reqs.insert(0, prot(rng.randrange(5)))
+        inflight = []
+        if rng.random() < 0.45:
+            cands = [k for k in conns if k != remover_conn]
+            rng.shuffle(cands)
+            for k in cands[: rng.choice([1, 1, 2])]:
+                ops.append(midreq(k, rng.choice(["snapshot", "headers", "halfbody"])))
+                inflight.append(k)
         ops.append(RQ(remover_conn, *reqs))
         removed.append(target)
+        for k in inflight:
+            if rng.random() < 0.8:
+                ops.append(FIN(k))
         # what the removed and the remaining controllers try afterwards
         order = list(conns)
         rng.shuffle(order)
